@@ -103,3 +103,7 @@ func checkH(h HCase) (r pbt.Result) {
 }
 
 func TestIndexHelpers(t *testing.T) { pbt.Run(t, genH, checkH) }
+
+func FuzzViewOperations(f *testing.F) { pbt.Fuzz(f, vops.Gen, vops.Check) }
+
+func FuzzIndexHelpers(f *testing.F) { pbt.Fuzz(f, genH, checkH) }
